@@ -385,6 +385,17 @@ pub fn pattern_matches(pattern: &[u8], channel: &[u8]) -> bool {
                     p_idx += 1;
                     continue;
                 }
+                b'[' if class_end(pattern, p_idx).is_some() => {
+                    // Character class: [abc], [a-c], [^x]
+                    let end = class_end(pattern, p_idx).unwrap();
+                    let negate = pattern.get(p_idx + 1) == Some(&b'^');
+                    let body = &pattern[p_idx + 1 + negate as usize..end];
+                    if class_contains(body, channel[c_idx]) != negate {
+                        p_idx = end + 1;
+                        c_idx += 1;
+                        continue;
+                    }
+                }
                 b'\\' if p_idx + 1 < pattern.len() => {
                     // Escaped character
                     if pattern[p_idx + 1] == channel[c_idx] {
@@ -420,6 +431,47 @@ pub fn pattern_matches(pattern: &[u8], channel: &[u8]) -> bool {
     }
     
     p_idx == pattern.len()
+}
+
+/// Index of the `]` closing the class opened at `open`, if there is one
+fn class_end(pattern: &[u8], open: usize) -> Option<usize> {
+    let mut i = open + 1;
+    if pattern.get(i) == Some(&b'^') {
+        i += 1;
+    }
+    while i < pattern.len() {
+        match pattern[i] {
+            b'\\' if i + 1 < pattern.len() => i += 2,
+            b']' => return Some(i),
+            _ => i += 1,
+        }
+    }
+    None
+}
+
+/// Does the class body (between `[`/`[^` and `]`) contain the byte
+fn class_contains(body: &[u8], byte: u8) -> bool {
+    let mut i = 0;
+    while i < body.len() {
+        if body[i] == b'\\' && i + 1 < body.len() {
+            if body[i + 1] == byte {
+                return true;
+            }
+            i += 2;
+        } else if i + 2 < body.len() && body[i + 1] == b'-' {
+            let (lo, hi) = if body[i] <= body[i + 2] { (body[i], body[i + 2]) } else { (body[i + 2], body[i]) };
+            if lo <= byte && byte <= hi {
+                return true;
+            }
+            i += 3;
+        } else {
+            if body[i] == byte {
+                return true;
+            }
+            i += 1;
+        }
+    }
+    false
 }
 
 /// Format a pub/sub message frame
